@@ -126,8 +126,24 @@ def padding_rule(F, G, rep):
     root = b["tir"]["value"]
     lens = [n for n in tir.walk(root) if n.get("k") == "Let" and n["pat"].get("k") == "Bind" and tir.pretty(n["init"]) == "self.game.frames.len()"]
     fors = [n for n in tir.walk(root) if n.get("k") == "For"]
-    ok = len(lens) == 1 and len(fors) == 1 and tir.place(fors[0]["iter"]) == "self.game.frames.ports"
+    def iter_place(e):
+        e = strip(e)
+        while e.get("k") == "MethodCall" and e["method"] in ("iter", "iter_mut", "into_iter") and not e.get("args"):
+            e = strip(e["recv"])
+        return tir.place(e)
+    ok = len(lens) == 1 and len(fors) == 1 and iter_place(fors[0]["iter"]) == "self.game.frames.ports"
     rep.ob("padding.all-ports", ok, fn, "loop", "frame_close must iterate every port of frames.ports with the frame count captured once")
+    # padding is unconditional: no early return, and the loop is not nested under a condition
+    par = safety.parents(root)
+    rets = [n for n in tir.walk(root) if n.get("k") == "Ret"]
+    nested = False
+    for f in fors:
+        y = f
+        while id(y) in par:
+            y = par[id(y)]
+            if y.get("k") in ("If", "Match", "Closure"):
+                nested = True
+    rep.ob("padding.unconditional", not rets and not nested, fn, "guard", "frame_close must pad unconditionally: an early return or an enclosing condition (%d returns, nested=%s) leaves absent characters without their null rows for some games" % (len(rets), nested))
     if ok:
         bound = lens[0]["pat"]["name"]
         pvar = fors[0]["pat"].get("name")
